@@ -1,0 +1,150 @@
+//go:build verif
+
+// Contracts of the pcapng / pcap readers for C15 (hostile input): helper preconditions, what each block reader
+// consumes, termination measures (bytes left on a finite stream, see streamBound in zz_verif_contracts.go) and the
+// representation invariant of the classic Reader.
+
+package pcapgo
+
+// The representation invariant convertTime needs (forall i < len(r.ifaces): r.ifaces[i].secondMask != 0 &&
+// r.ifaces[i].scaleDown != 0, established by readInterfaceDescriptor after the if_tsresol range check) is NOT stated:
+// a quantified fact over the struct elements of a slice is not framed across calls by the engine (owner(elem(a,i))
+// is axiomatised for ground terms only), so convertTime's three div obligations stay not claimed.
+
+// 10^j for the exponents the interface descriptor accepts (0..19 fit 64 bit).
+//@ spec p10(j int) int = j <= 0 ? 1 : j == 1 ? 10 : j == 2 ? 100 : j == 3 ? 1000 : j == 4 ? 10000 : j == 5 ? 100000 : j == 6 ? 1000000 : j == 7 ? 10000000 : j == 8 ? 100000000 : j == 9 ? 1000000000 : j == 10 ? 10000000000 : j == 11 ? 100000000000 : j == 12 ? 1000000000000 : j == 13 ? 10000000000000 : j == 14 ? 100000000000000 : j == 15 ? 1000000000000000 : j == 16 ? 10000000000000000 : j == 17 ? 100000000000000000 : j == 18 ? 1000000000000000000 : 10000000000000000000
+
+// The endianness helpers stay inlined at their call sites (C14 needs their value); the precondition is what their own
+// bodies need.
+//@ func (r *NgReader) getUint16(buffer []byte) uint16
+//@   props C15
+//@   inline
+//@   requires len(buffer) >= 2
+
+//@ func (r *NgReader) getUint32(buffer []byte) uint32
+//@   props C15
+//@   inline
+//@   requires len(buffer) >= 4
+
+//@ func (r *NgReader) getUint64(buffer []byte) uint64
+//@   props C15
+//@   inline
+//@   requires len(buffer) >= 8
+
+//@ func (r *NgReader) readIPAddr(nr *NgNameRecord, length int) error
+//@   props C15
+//@   requires 0 <= length && length <= 24
+//@   ensures result == nil ==> ghost(consumed) >= old(ghost(consumed))
+//@   ensures result == nil ==> nr.Addr != nil
+
+//@ func (r *NgReader) readHWAddr(nr *NgNameRecord, length int) error
+//@   props C15
+//@   requires 0 <= length && length <= 24
+//@   ensures result == nil ==> ghost(consumed) >= old(ghost(consumed))
+//@   ensures result == nil ==> nr.Addr != nil
+
+// A block header is 8 bytes (12 for a section header).
+//@ func (r *NgReader) readBlock() error
+//@   props C15
+//@   ensures result == nil ==> ghost(consumed) >= old(ghost(consumed)) + 8 && ghost(consumed) <= streamBound()
+
+//@ func (r *NgReader) readDecryptionSecretsBlock() error
+//@   props C15
+//@   ensures result == nil ==> ghost(consumed) >= old(ghost(consumed))
+
+//@ func (r *NgReader) readNameResolutionBlock() error
+//@   props C15
+//@   ensures result == nil ==> ghost(consumed) >= old(ghost(consumed))
+//@   loop 0: invariant ghost(consumed) >= old(ghost(consumed))
+//@   loop 0: decreases streamBound() - ghost(consumed)
+//@   loop 1: invariant ghost(consumed) >= old(ghost(consumed))
+// (loop 0 stays not claimed: the bytes the inner name loop consumes can only be related to the function entry, not to the
+// value at the head of the enclosing record loop, so "consumed grew in this iteration" is lost after the inner loop.)
+
+//@ func (r *NgReader) skipSection() error
+//@   props C15
+//@   ensures result == nil ==> ghost(consumed) >= old(ghost(consumed)) + 8 && ghost(consumed) <= streamBound()
+//@   loop 0: invariant ghost(consumed) >= old(ghost(consumed))
+//@   loop 0: decreases streamBound() - ghost(consumed)
+
+//@ func (r *NgReader) readInterfaceDescriptor() error
+//@   props C15
+//@   ensures result == nil ==> len(r.ifaces) == old(len(r.ifaces)) + 1
+//@   ensures result != nil ==> len(r.ifaces) == old(len(r.ifaces))
+//@   ensures result == nil ==> ghost(consumed) >= old(ghost(consumed))
+//@   loop 0: invariant ghost(consumed) >= old(ghost(consumed))
+//@   loop 0: decreases streamBound() - ghost(consumed)
+//@   loop 1: invariant 0 <= j && j <= 19 && intf.secondMask == p10(j)
+//@   loop 1: decreases 19 - j
+
+//@ func (r *NgReader) convertTime(ifaceID int, ts uint64) (int64, int64)
+//@   props C15
+//@   requires 0 <= ifaceID && ifaceID < len(r.ifaces)
+
+//@ func (r *NgReader) readInterfaceStatistics() error
+//@   props C15
+//@   ensures result == nil ==> ghost(consumed) >= old(ghost(consumed))
+//@   loop 0: invariant len(r.ifaces) == old(len(r.ifaces))
+//@   loop 0: invariant 0 <= ifaceID && ifaceID < len(r.ifaces)
+//@   loop 0: invariant ghost(consumed) >= old(ghost(consumed))
+//@   loop 0: decreases streamBound() - ghost(consumed)
+
+//@ func (r *NgReader) firstInterface() error
+//@   props C15
+//@   ensures result == nil ==> len(r.ifaces) >= 1
+//@   ensures result == nil ==> ghost(consumed) >= old(ghost(consumed))
+//@   loop 0: invariant ghost(consumed) >= old(ghost(consumed))
+//@   loop 0: decreases streamBound() - ghost(consumed)
+
+// (The trivially true precondition only makes the engine read the byte counter in the entry state: a ghost that is first
+// read after the dynamic call r.options.SectionEndCallback(...) is otherwise not carried across that call's havoc.)
+//@ func (r *NgReader) readSectionHeader() error
+//@   props C15
+//@   requires ghost(consumed) == ghost(consumed)
+//@   ensures result == nil ==> ghost(consumed) >= old(ghost(consumed))
+//@   loop 1: invariant ghost(consumed) >= old(ghost(consumed))
+//@   loop 1: decreases streamBound() - ghost(consumed)
+//@   loop 2: invariant ghost(consumed) >= old(ghost(consumed))
+//@   loop 2: decreases streamBound() - ghost(consumed)
+
+// A packet header is returned only for an interface of the current section; the capture length is a 32-bit value.
+//@ func (r *NgReader) readPacketHeader() error
+//@   props C15
+//@   ensures result == nil ==> 0 <= r.ci.InterfaceIndex && r.ci.InterfaceIndex < len(r.ifaces)
+//@   ensures result == nil ==> 0 <= r.ci.CaptureLength && r.ci.CaptureLength <= 4294967295
+//@   loop 0: decreases streamBound() - ghost(consumed)
+
+//@ func (r *NgReader) readPacketOptions() (NgPacketOptions, error)
+//@   props C15
+//@   loop 0: decreases streamBound() - ghost(consumed)
+
+// ---- classic pcap reader (C15) -----------------------------------------------------------------------------------
+
+// Peek returns exactly n bytes unless it reports an error (bufio documentation); it consumes nothing.
+//@ extern (b *bufio.Reader) Peek(n int) ([]byte, error)
+//@   ensures result1 == nil ==> len(result0) == n
+//@   ensures len(result0) <= n || n < 0
+//@   modifies nothing
+
+// The byte-order decoders of encoding/binary (binary.LittleEndian / binary.BigEndian) are pure. (No props line: the
+// implementer check of ifacecontract looks only at module packages and reports "interface method not found" for an
+// interface of the standard library.)
+//@ ifacecontract binary.ByteOrder.Uint16(b []byte) uint16
+//@   modifies nothing
+//@ ifacecontract binary.ByteOrder.Uint32(b []byte) uint32
+//@   modifies nothing
+
+// Representation invariant of Reader (unexported field): the byte order is chosen by readHeader from the magic number
+// before NewReader hands the reader out.
+//@ func (r *Reader) readHeader() error
+//@   props C15
+//@   ensures result == nil ==> r.byteOrder != nil
+
+//@ func NewReader(r io.Reader) (*Reader, error)
+//@   props C15
+//@   ensures result1 == nil ==> result0.byteOrder != nil
+
+//@ func (r *Reader) readPacketHeader() (ci gopacket.CaptureInfo, err error)
+//@   props C15
+//@   requires r.byteOrder != nil
+//@   ensures r.byteOrder != nil
